@@ -1245,12 +1245,15 @@ class SqlQuery(object):
         sqlquery.conditions = []
         sqlquery.outer_conditions = []
         sqlquery.tablerefs = {}
+        sqlquery.aliases = set()
+        sqlquery.subqueries = []
         if parent_sqlquery is None:
             sqlquery.alias_counters = {}
             sqlquery.expr_counter = itertools.count(1)
         else:
             sqlquery.alias_counters = parent_sqlquery.alias_counters.copy()
             sqlquery.expr_counter = parent_sqlquery.expr_counter
+            parent_sqlquery.subqueries.append(sqlquery)
         sqlquery.used_from_subquery = False
     def get_tableref(sqlquery, name_path):
         tableref = sqlquery.tablerefs.get(name_path)
@@ -1269,10 +1272,19 @@ class SqlQuery(object):
         return tableref
     def make_alias(sqlquery, name):
         name = name[:max_alias_length-3].lower()
-        i = sqlquery.alias_counters.setdefault(name, 0) + 1
-        alias = name if i == 1 and name != 't' else '%s-%d' % (name, i)
-        sqlquery.alias_counters[name] = i
+        while True:
+            i = sqlquery.alias_counters.setdefault(name, 0) + 1
+            alias = name if i == 1 and name != 't' else '%s-%d' % (name, i)
+            sqlquery.alias_counters[name] = i
+            # a join can be added to this query while one of its subqueries is being translated:
+            # its alias must not be shadowed by an alias the subquery has already taken
+            if not sqlquery.alias_used_in_subqueries(alias): break
+        sqlquery.aliases.add(alias)
         return alias
+    def alias_used_in_subqueries(sqlquery, alias):
+        for subquery in sqlquery.subqueries:
+            if alias in subquery.aliases or subquery.alias_used_in_subqueries(alias): return True
+        return False
     def join_table(sqlquery, parent_alias, alias, table_name, join_cond):
         new_item = [alias, 'TABLE', table_name, join_cond]
         from_ast = sqlquery.from_ast
